@@ -3,6 +3,10 @@
   is modelled function by function and tied word for word to the real compiler by harness/c01_mech.go) and the
   bytecode verifier (Model/Verifier.lean).
 
+  Everything is parametric in the number structure (`[NumStruct]`, Spec/CondAst.lean), like the compile model itself: the
+  prototype only records WHICH constants are numbers.  The driver engine instantiates it with IEEE doubles (the instance
+  of Engines/C01MEng.lean), the kernel-evaluated examples of Props/C07.lean with an integer structure.
+
   `toProto`    : the `FunctionProto` the real `compileFunctionExpr`/`Compile` assembles for the main chunk from what the
                  model computes: Code = the patched instructions encoded, Constants / stringConstants from the constant
                  pool, NumUsedRegisters from patchCode.  The header fields the fragment cannot influence are the ones
@@ -22,6 +26,8 @@ import GLua.Spec.Num
 
 namespace GLua.Compile
 open GLua.MiniVM GLua.Verifier
+
+variable [NumStruct]
 
 /-- `Constants[i]` as the verifier sees it: `some hex` for an LString, `none` for an LNumber. -/
 def konstKind : Konst → Option String
@@ -67,6 +73,10 @@ def condScoped (n : Nat) : Cond → Bool
   | .and l r => condScoped n l && condScoped n r
   | .or l r => condScoped n l && condScoped n r
   | .rel _ l r => condScoped n l && condScoped n r
+  | .arith _ l r => condScoped n l && condScoped n r
+  | .unm c => condScoped n c
+  | .len c => condScoped n c
+  | .concat l r => condScoped n l && condScoped n r
   | _ => true
 
 def targetScoped (n : Nat) : Target → Bool
@@ -108,12 +118,13 @@ def scopeOK (nlocals : Nat) (body : Block) : Bool := (scopeChunk body nlocals).i
 
 /-! ### the guards of `compile_fragment_wf` -/
 
-/-- well scoped, accepted by the (model) compiler, and within the encodable sizes: code shorter than 2^17 words
-    (every jump distance fits sBx), at most 2^18 constants (every LOADK / GETGLOBAL / SETGLOBAL index fits Bx). -/
+/-- well scoped, accepted by the (model) compiler — patchCode raises neither "too long to jump." (its two range checks
+    guarantee that every patched distance fits sBx) nor "register overflow" —, and at most 2^18 constants (every LOADK /
+    GETGLOBAL / SETGLOBAL index fits Bx; the model's ConstIndex has no "too many constants"). -/
 def FragOK (nlocals : Nat) (body : Block) : Bool :=
   scopeOK nlocals body &&
   match fragProto nlocals body with
-  | .ok p => decide (p.code.size ≤ Generated.opMaxArgSbx) && decide (p.consts.size ≤ Generated.opMaxArgBx + 1)
+  | .ok p => decide (p.consts.size ≤ Generated.opMaxArgBx + 1)
   | .error _ => false
 
 end GLua.Compile
